@@ -85,3 +85,19 @@ func runTrace(args []*Sexp) *Sexp {
 	}
 	return L(A("traced"), A(name), trace, files)
 }
+
+// (case id addlines <size> (offs o1 o2 ...)): a new file of the given size, AddLine for every offset in turn
+func runAddLines(args []*Sexp) *Sexp {
+	size, _ := strconv.Atoi(args[0].Atom)
+	fs := parser.NewFileSet()
+	f := fs.AddFile("x", -1, size)
+	for _, a := range args[1].List[1:] {
+		off, _ := strconv.Atoi(a.Atom)
+		f.AddLine(off)
+	}
+	lines := L(A("lines"))
+	for _, l := range f.Lines {
+		lines.List = append(lines.List, A(strconv.Itoa(l)))
+	}
+	return lines
+}
